@@ -9,4 +9,6 @@ python3 tools/mkvendor.py "$WORK/vendor"
 cd engine
 cargo +stable build --release 2>&1 | grep -E "^error|Finished|could not" -A8 || true
 test -x "$WORK/target/release/mfv"
+# coverage-guided driver for the thorough tier (nightly + cargo-fuzz); not needed by quick checks
+( cd fuzz && cp -f ../Cargo.lock . && cargo +nightly fuzz build -O -s none --target-dir "$WORK/fuzz-target" 2>&1 | grep -E "^error|Finished" -A6 ) || echo "note: fuzz target not built"
 echo "setup ok"
